@@ -986,6 +986,10 @@ class Fetcher:
                 offsets = await self._proc_offset_request(node_id, topic_data)
             except Errors.KafkaError as err:
                 log.error("Failed fetch offsets from %s: %s", node_id, err)
+                if getattr(err, "invalid_metadata", False):
+                    # The leader moved: refresh metadata, or the reset would
+                    # be retried at the stale leader over and over
+                    self._client.force_metadata_update()
                 await asyncio.sleep(self._retry_backoff)
                 return needs_wakeup
         except asyncio.CancelledError:
